@@ -13,27 +13,20 @@ Section W.
 Variable w : world.
 Variable faults : step -> bool.
 Variable fl : flags.
-Hypothesis repaired : w_fixed w = true.          (* the code since commit d5ea0c0 *)
+Hypothesis repaired : w_fixed w = true.          (* removeStaleMainfile: the code since commit d5ea0c0 *)
+Hypothesis repaired2 : w_cleanup w = true.       (* GenerateMainfile removes the file on its error paths: since 1372a21 *)
 
-(* FULL STATEMENT (false of the code that exists, [w_cleanup w = false], see C09_clean_refuted):
-     forall d, f_keep fl = false -> nolink d -> fst (invoke_dir w faults fl d) = remove_stale d.
-   It holds, for EVERY fault assignment, of an Invoke that removes the generated file again when
-   GenerateMainfile fails ([w_cleanup w = true]: the model of the suggested repair): *)
-Theorem C09_clean_after_suggested_repair : w_cleanup w = true ->
-  forall d, f_keep fl = false -> nolink d -> fst (invoke_dir w faults fl d) = remove_stale d.
-Proof. exact (p_clean_full w faults fl repaired). Qed.
-
-(* For the code that exists: proved for every fault assignment in which the three steps between
-   os.Create and the registration of the deferred removal (template write, close, chtimes) do
-   not fail. *)
-Theorem C09_clean_partial : forall d, f_keep fl = false -> nolink d -> write_ok faults ->
+(* THE FULL STATEMENT: whatever fails - every assignment of failures to the 24 steps, the write,
+   close and chtimes of the generated file included - without -keep the directory afterwards is
+   the directory before minus a leftover generated file *)
+Theorem C09_clean : forall d, f_keep fl = false -> nolink d ->
   fst (invoke_dir w faults fl d) = remove_stale d.
-Proof. exact (p_clean w faults fl repaired). Qed.
+Proof. exact (p_clean w faults fl repaired repaired2). Qed.
 
 (* without a leftover: the directory afterwards IS the directory before *)
-Theorem C09_clean_noleftover_partial : forall d, f_keep fl = false -> lookup d mainfile = None -> write_ok faults ->
+Theorem C09_clean_noleftover : forall d, f_keep fl = false -> lookup d mainfile = None ->
   fst (invoke_dir w faults fl d) = d.
-Proof. exact (p_clean_noleftover w faults fl repaired). Qed.
+Proof. exact (p_clean_noleftover w faults fl repaired repaired2). Qed.
 
 (* every other name keeps its entry: with or without -keep, whatever fails (write faults
    included, repaired or not), for the complete run ... *)
@@ -46,12 +39,12 @@ Theorem C09_user_files_untouched_interrupted : forall k d name, nolink d -> name
   lookup (crash_dir w faults fl k d) name = lookup d name.
 Proof. exact (crash_untouched w faults fl). Qed.
 
-(* -keep: exactly the generated file is added, and only when generation completed *)
-Theorem C09_keep : forall d, f_keep fl = true -> nolink d -> write_ok faults ->
+(* -keep: exactly the generated file is added, and only when generation completed (whatever fails) *)
+Theorem C09_keep : forall d, f_keep fl = true -> nolink d ->
   fst (invoke_dir w faults fl d) =
     if o_generated (invoke_dir_full w faults fl d)
     then set mainfile (File (w_gen w)) (remove_stale d) else remove_stale d.
-Proof. exact (p_keep w faults fl repaired). Qed.
+Proof. exact (p_keep w faults fl repaired repaired2). Qed.
 
 (* a leftover regular file of ANY content changes nothing: not the exit status, not the
    directory afterwards, not the step at which the run ends, not the go commands started *)
@@ -75,23 +68,30 @@ Theorem C09_leftover_irrelevant_magefilesdir : forall ohf d sub junk,
   invoke w faults fl ohf (set magefilesDir (Dir (set mainfile (File junk) sub)) d) = invoke w faults fl ohf d.
 Proof. exact (p_leftover_sub w faults fl repaired). Qed.
 
-Theorem C09_clean_top_partial : forall ohf d, f_keep fl = false -> write_ok faults ->
+Theorem C09_clean_top : forall ohf d, f_keep fl = false ->
   nolink d -> (forall sub, lookup d magefilesDir = Some (Dir sub) -> nolink sub) ->
   fst (invoke w faults fl ohf d) = remove_stale_top d.
-Proof. exact (p_clean_top w faults fl repaired). Qed.
+Proof. exact (p_clean_top w faults fl repaired repaired2). Qed.
 End W.
 
-(* the full statement of C09_clean is FALSE of the code: when the template write fails the
-   truncated generated file stays in the directory (GenerateMainfile's error return comes
-   before the defer is registered).  Candidate finding, replayed on the implementation by the check. *)
-Theorem C09_clean_refuted : exists w faults fl d,
+(* before commit 1372a21 ([w_cleanup] = false) C09_clean was FALSE: when the template write
+   failed the truncated generated file stayed in the directory (GenerateMainfile's error return
+   comes before the defer is registered).  Found by this check on a full tmpfs, since repaired. *)
+Theorem C09_clean_before_repair_refuted : exists w faults fl d,
   w_fixed w = true /\ w_cleanup w = false /\ f_keep fl = false /\ lookup d mainfile = None /\
   snd (invoke_dir w faults fl d) = 1 /\
   lookup (fst (invoke_dir w faults fl d)) mainfile = Some (File (w_partial w)).
-Proof. exact clean_refuted. Qed.
+Proof. exact clean_before_repair_refuted. Qed.
 
-(* before the repair an empty leftover changed the result of the next run *)
-Theorem C09_before_repair_refuted : exists w faults fl d junk,
+(* what did hold then (any [w_cleanup]): the statement restricted to runs in which write, close
+   and chtimes do not fail *)
+Theorem C09_clean_before_repair_partial : forall w faults fl, w_fixed w = true ->
+  forall d, f_keep fl = false -> nolink d -> write_ok faults ->
+  fst (invoke_dir w faults fl d) = remove_stale d.
+Proof. exact p_clean_old_partial. Qed.
+
+(* before commit d5ea0c0 an empty leftover changed the result of the next run *)
+Theorem C09_leftover_before_repair_refuted : exists w faults fl d junk,
   w_fixed w = false /\ lookup d mainfile = None /\
   snd (invoke_dir w faults fl (set mainfile (File junk) d)) <> snd (invoke_dir w faults fl d).
 Proof. exact before_repair_refuted. Qed.
@@ -129,9 +129,8 @@ Theorem C09_clean_removes_files : forall cache root es, lookup root cache = Some
   clean_cmd false (fun _ => false) cache root = (set cache (Dir (filter (fun p => is_dir (snd p)) es)) root, 0).
 Proof. exact clean_complete. Qed.
 
-Print Assumptions C09_clean_after_suggested_repair.
-Print Assumptions C09_clean_partial.
-Print Assumptions C09_clean_noleftover_partial.
+Print Assumptions C09_clean.
+Print Assumptions C09_clean_noleftover.
 Print Assumptions C09_user_files_untouched.
 Print Assumptions C09_user_files_untouched_interrupted.
 Print Assumptions C09_keep.
@@ -139,9 +138,10 @@ Print Assumptions C09_leftover_irrelevant.
 Print Assumptions C09_crash_then_run.
 Print Assumptions C09_leftover_irrelevant_top.
 Print Assumptions C09_leftover_irrelevant_magefilesdir.
-Print Assumptions C09_clean_top_partial.
-Print Assumptions C09_clean_refuted.
-Print Assumptions C09_before_repair_refuted.
+Print Assumptions C09_clean_top.
+Print Assumptions C09_clean_before_repair_refuted.
+Print Assumptions C09_clean_before_repair_partial.
+Print Assumptions C09_leftover_before_repair_refuted.
 Print Assumptions C09_symlink_written_through.
 Print Assumptions C09_init_existing_untouched.
 Print Assumptions C09_init_creates.
@@ -153,16 +153,18 @@ Print Assumptions C09_clean_removes_files.
 Example C09_nonvacuous :
   let d := d_ex in
   let dj := set mainfile (File "pack") d in
-  invoke_dir (w_ex true) no_faults (fl_ex false) d = (d, 0) /\
-  invoke_dir (w_ex true) (only TargetOutcome) (fl_ex false) d = (d, 7) /\
-  invoke_dir (w_ex true) (only GoBuild) (fl_ex false) dj = (d, 1) /\
-  invoke_dir (w_ex true) (only GoListFiles) (fl_ex false) dj = (d, 1) /\
-  invoke_dir (w_ex true) no_faults (fl_ex true) dj = (set mainfile (File "GENERATED") d, 0) /\
-  invoke_dir (w_ex true) (only Parse) (fl_ex true) dj = (d, 1) /\
-  crash_dir (w_ex true) no_faults (fl_ex false) 19 d = set mainfile (File "GENERATED") d /\
-  invoke_dir (w_ex true) no_faults (fl_ex false) (crash_dir (w_ex true) no_faults (fl_ex false) 19 d) = (d, 0) /\
-  crash_dir (w_ex true) no_faults (fl_ex false) 13 d = set mainfile (File "") d /\
-  o_calls (invoke_dir_full (w_ex true) no_faults (fl_ex false) d) = [GVersion; GEnvGocache; GList; GList; GBuild] /\
+  invoke_dir (w_ex true true) no_faults (fl_ex false) d = (d, 0) /\
+  invoke_dir (w_ex true true) (only TargetOutcome) (fl_ex false) d = (d, 7) /\
+  invoke_dir (w_ex true true) (only GoBuild) (fl_ex false) dj = (d, 1) /\
+  invoke_dir (w_ex true true) (only GoListFiles) (fl_ex false) dj = (d, 1) /\
+  invoke_dir (w_ex true true) (only WriteMain) (fl_ex false) dj = (d, 1) /\
+  invoke_dir (w_ex true true) (only Chtimes) (fl_ex true) d = (d, 1) /\
+  invoke_dir (w_ex true true) no_faults (fl_ex true) dj = (set mainfile (File "GENERATED") d, 0) /\
+  invoke_dir (w_ex true true) (only Parse) (fl_ex true) dj = (d, 1) /\
+  crash_dir (w_ex true true) no_faults (fl_ex false) 19 d = set mainfile (File "GENERATED") d /\
+  invoke_dir (w_ex true true) no_faults (fl_ex false) (crash_dir (w_ex true true) no_faults (fl_ex false) 19 d) = (d, 0) /\
+  crash_dir (w_ex true true) no_faults (fl_ex false) 13 d = set mainfile (File "") d /\
+  o_calls (invoke_dir_full (w_ex true true) no_faults (fl_ex false) d) = [GVersion; GEnvGocache; GList; GList; GBuild] /\
   init_cmd false false "tpl" "t" d = (d, 1) /\
   init_cmd false false "tpl" "t" [("a", File "1")] = ([("a", File "1"); (initFile, File "tpl")], 0) /\
   clean_cmd false (fun _ => false) "cache"
